@@ -309,6 +309,43 @@ func runE5Row(p *Program, sp *Spec, c *Collector, r *E5Row) bool {
 				c.Ob(r.Props, "E5.key-identity", key, Violated, fmt.Sprintf("%s: changing %s does not change the key; key term: %s", r.What, fld, clip(got.String(), 200)), pos, false)
 			}
 		}
+		// joint injectivity: two different records must not collide because adjacent variable parts are concatenated without a
+		// separator (line 4, column 19 and line 41, column 9 both read "419")
+		flds := sortedKeys(r.Fields)
+		probe := &evaluator{e: env{}, missing: map[string]string{}, kinds: map[string]string{}}
+		probe.eval(got, "string")
+		for i := 0; i < len(flds); i++ {
+			for j := i + 1; j < len(flds); j++ {
+				t1, t2 := "p0."+flds[i], "p0."+flds[j]
+				k1, ok1 := probe.missing[t1]
+				k2, ok2 := probe.missing[t2]
+				if !ok1 || !ok2 {
+					continue
+				}
+				var a, b [2]val
+				switch {
+				case k1 == "string" && k2 == "string":
+					a, b = [2]val{{k: 's', s: "a"}, {k: 's', s: "bc"}}, [2]val{{k: 's', s: "ab"}, {k: 's', s: "c"}}
+				case k1 == "string":
+					a, b = [2]val{{k: 's', s: "a1"}, {k: 'i', i: 2}}, [2]val{{k: 's', s: "a"}, {k: 'i', i: 12}}
+				case k2 == "string":
+					a, b = [2]val{{k: 'i', i: 2}, {k: 's', s: "1a"}}, [2]val{{k: 'i', i: 21}, {k: 's', s: "a"}}
+				default:
+					a, b = [2]val{{k: 'i', i: 1}, {k: 'i', i: 23}}, [2]val{{k: 'i', i: 12}, {k: 'i', i: 3}}
+				}
+				for _, order := range [][2]int{{0, 1}} {
+					_ = order
+					v1 := (&evaluator{e: env{t1: a[0], t2: a[1]}, missing: map[string]string{}, kinds: map[string]string{}}).eval(got, "string")
+					v2 := (&evaluator{e: env{t1: b[0], t2: b[1]}, missing: map[string]string{}, kinds: map[string]string{}}).eval(got, "string")
+					key := e5Key(r, "separates "+flds[i]+" / "+flds[j])
+					if v1.String() == v2.String() {
+						c.Ob(r.Props, "E5.key-identity", key, Violated, fmt.Sprintf("%s: (%s=%s, %s=%s) and (%s=%s, %s=%s) give the same key %s: the two parts are joined without a separator, so two different records share one entry", r.What, flds[i], a[0], flds[j], a[1], flds[i], b[0], flds[j], b[1], v1), pos, false)
+					} else {
+						c.Ob(r.Props, "E5.key-identity", key, Discharged, r.What+": "+flds[i]+" and "+flds[j]+" are kept apart in the key", pos, true)
+					}
+				}
+			}
+		}
 		return true
 	case "emits":
 		var spec2code map[string]*Sym
